@@ -45,17 +45,19 @@ TickV(l, v) == Tick(l, Lit(v))
    assignment to its tests, and every ordered pair (outer, inner) with the inner form placed in
    every sub-form position of the outer one. *)
 
-DerivedKinds == <<"begin", "let", "letstar", "cond", "cond2", "case", "case2", "and", "or", "when", "unless">>
+DerivedKinds == <<"begin", "let", "letstar", "cond", "cond2", "cond3", "case", "case2", "case3", "and", "or", "when", "unless">>
 \* number of sub-form positions (holes) of each template
-Holes(k) == CASE k = "begin" -> 3 [] k = "let" -> 3 [] k = "letstar" -> 3 [] k = "cond" -> 5 [] k = "cond2" -> 3
-              [] k = "case" -> 4 [] k = "case2" -> 3 [] k = "and" -> 3 [] k = "or" -> 3 [] k = "when" -> 3 [] k = "unless" -> 3
+Holes(k) == CASE k = "begin" -> 3 [] k = "let" -> 3 [] k = "letstar" -> 3 [] k = "cond" -> 5 [] k = "cond2" -> 3 [] k = "cond3" -> 3
+              [] k = "case" -> 4 [] k = "case2" -> 3 [] k = "case3" -> 2 [] k = "and" -> 3 [] k = "or" -> 3 [] k = "when" -> 3 [] k = "unless" -> 3
 \* which holes are tests (their truth value is chosen) - the others hold plain values
-TestHoles(k) == CASE k = "cond" -> {1, 3} [] k = "cond2" -> {1, 2} [] k = "and" -> {1, 2} [] k = "or" -> {1, 2}
-                  [] k = "when" -> {1} [] k = "unless" -> {1} [] k = "case" -> {1} [] k = "case2" -> {1} [] OTHER -> {}
+TestHoles(k) == CASE k = "cond" -> {1, 3} [] k = "cond2" -> {1, 2} [] k = "cond3" -> {1, 3} [] k = "and" -> {1, 2} [] k = "or" -> {1, 2}
+                  [] k = "when" -> {1} [] k = "unless" -> {1} [] k = "case" -> {1} [] k = "case2" -> {1} [] k = "case3" -> {1} [] OTHER -> {}
 \* the values a test hole may take: #f, and two true values one of which is not a boolean
-TestValues(k) == IF k \in {"case", "case2"} THEN {MkInt(1), MkInt(3), MkInt(5)} ELSE {False, MkInt(0), True}
+TestValues(k) == IF k \in {"case", "case2", "case3"} THEN {MkInt(1), MkInt(3), MkInt(5)} ELSE {False, MkInt(0), True}
 
-ReceiverFn(l) == Fn(<<"r">>, <<Tick(l, Call("list", <<Var("r")>>))>>)
+\* the receiver of a => clause is itself an expression with an effect: it must be evaluated only
+\* when its clause is selected (label l), and then called once (label l + 1)
+ReceiverFn(l) == Tick(l, Fn(<<"r">>, <<Tick(l + 1, Call("list", <<Var("r")>>))>>))
 
 \* the template of kind k over hole fillers h (a sequence of expressions) with label base b
 Template(k, h, b) ==
@@ -64,6 +66,8 @@ Template(k, h, b) ==
     [] k = "letstar" -> LetStar(<<B("p", h[1]), B("q", Call("list", <<Var("p"), h[2]>>))>>, <<Call("list", <<Var("p"), Var("q"), h[3]>>)>>)
     [] k = "cond"    -> CondElse(<<Clause(h[1], <<h[2]>>), ArrowClause(h[3], ReceiverFn(b + 8)), Clause(h[4], <<>>)>>, <<h[5]>>)
     [] k = "cond2"   -> Cond(<<Clause(h[1], <<>>), Clause(h[2], <<Tick(b + 8, Num(1)), h[3]>>)>>)
+    [] k = "cond3"   -> Cond(<<Clause(h[1], <<h[2]>>), ArrowClause(h[3], ReceiverFn(b + 8))>>)      \* => clause last, no else
+    [] k = "case3"   -> Case(h[1], <<CClause(<<MkInt(1)>>, <<h[2]>>), CArrow(<<MkInt(3)>>, ReceiverFn(b + 8))>>)
     [] k = "case"    -> CaseElse(h[1], <<CClause(<<MkInt(1), MkInt(2)>>, <<h[2]>>), CArrow(<<MkInt(3)>>, ReceiverFn(b + 8))>>, <<h[3], h[4]>>)
     [] k = "case2"   -> Case(h[1], <<CClause(<<MkInt(1)>>, <<h[2]>>), CClause(<<MkSym("a"), MkInt(3)>>, <<h[3]>>)>>)
     [] k = "and"     -> And(<<h[1], h[2], h[3]>>)
